@@ -130,11 +130,20 @@ func genC11Doc(t *rapid.T) c11Doc {
 	}
 }
 
+// unicodeSnippet holds text that dom.Parse rewrites (decomposed accents, Hangul jamo, soft hyphens,
+// NFC singletons): the reader and file entry points must treat it exactly as Apply(dom.Parse(bytes)).
+const unicodeSnippet = "<p>re\u0301sume\u0301 co\u00adoperate nai\u0308ve \u1112\u1161\u11ab \u212b \u2126 fi\u00adnal e\u0301te\u0301 " +
+	"cafe\u0301 soft\u00adhyphen A\u030a o\u0302 u\u0308 n\u0303 text text text text text text text text text text text text.</p>"
+
 func genC11(t *rapid.T) *Case {
 	ex := c11Extra{Repeat: 8}
 	n := rapid.IntRange(1, 3).Draw(t, "ndocs")
 	for i := 0; i < n; i++ {
-		ex.Docs = append(ex.Docs, genC11Doc(t))
+		d := genC11Doc(t)
+		if rapid.IntRange(0, 2).Draw(t, "unicode") == 0 {
+			d.HTML = strings.Replace(d.HTML, "</body>", unicodeSnippet+"</body>", 1)
+		}
+		ex.Docs = append(ex.Docs, d)
 	}
 	h := rapid.IntRange(2, 10).Draw(t, "hist")
 	for i := 0; i < h; i++ {
@@ -302,7 +311,11 @@ func siblingURL(u string) string {
 	if i := strings.LastIndex(pu.Path, "/"); i >= 0 {
 		dir, file = pu.Path[:i+1], pu.Path[i+1:]
 	}
-	pu.Path = dir + "zzsib/" + file
+	if len(u)%2 == 0 || file == "" {
+		pu.Path = dir + "zzsib/" + file // another directory
+	} else {
+		pu.Path = dir + "zz" + file // the same directory, another file name
+	}
 	pu.RawPath = ""
 	return pu.String()
 }
